@@ -434,7 +434,7 @@ func genAmt(rt *rapid.T, label string, max *big.Int) *big.Int {
 }
 
 func TestPropLockup(t *testing.T) {
-	drv.Check(t, drv.Cfg{Name: "lockup-vs-model", Rule: rule, Quick: 300, Thorough: 12000, Steps: 35, TSteps: 70}, func(rt *rapid.T, cs *drv.Case) {
+	drv.Check(t, drv.Cfg{Name: "lockup-vs-model", Rule: rule, Quick: 300, Thorough: 5000, Steps: 35, TSteps: 70}, func(rt *rapid.T, cs *drv.Case) {
 		c := chain.New(t)
 		w := &world{c: c, locks: map[uint64]*mlock{}, funded: map[string]*big.Int{}}
 		w.lastID = c.App.LockupKeeper.GetLastLockID(c.Ctx)
